@@ -211,11 +211,68 @@ def _op_visitor_parts(name: str):
     return None
 
 
+def _table_of(expr):
+    """Name of the dispatch table a receiver expression denotes (`OPERATORS`, `self.extract_map` ...)."""
+    d = dotted(expr) or ""
+    if d in TABLES:
+        return d
+    if d.startswith("self."):
+        return SELF_TABLES.get(d[5:])
+    return None
+
+
+def _table_spellings(tname):
+    return {tname} | {f"self.{a}" for a, t in SELF_TABLES.items() if t == tname}
+
+
+def _try_converts_keyerror(ctx, pm, n) -> bool:
+    """`n` sits in the body of a try whose KeyError/LookupError/Exception handler ends in a documented error
+    (a documented `raise`, or a NoReturn helper)."""
+    for tr, part in enclosing_try(pm, n):
+        if part != "body":
+            continue
+        for hnd in tr.handlers:
+            ht = unparse(hnd.type) if hnd.type is not None else ""
+            if ("KeyError" in ht or "LookupError" in ht or ht in ("Exception", "BaseException", "")) \
+                    and _handler_converts(ctx, hnd):
+                return True
+    return False
+
+
+def _membership_dominates(ctx, f, pm, n, ktxt, tname) -> bool:
+    """A positive `<key> in <table>` outcome dominates the lookup (nested if, early exit, comprehension filter)."""
+    want = {f"{ktxt} in {sp}" for sp in _table_spellings(tname)}
+    guards = list(lexical_guards(pm, n, stop=f.node))
+    for gen, _ in _comp_scopes(pm, n, f.node):
+        guards.extend((t, True) for t in gen.ifs)
+    if any(pol and txt in want for txt, pol in guard_atoms(guards)):
+        return True
+    g = ctx.cfg(f)
+    for node in g.nodes_containing(n):
+        if any(pol and txt in want for txt, pol in guard_atoms(g.edge_guards(node))):
+            return True
+    return False
+
+
+def _resolve_key(fnode, expr, depth=0):
+    """The key expression with locals bound exactly once (`op = unary.operator`) replaced by their value."""
+    if isinstance(expr, ast.Name) and depth < 3:
+        v = _single_binding(fnode, expr.id)
+        if v is not None and isinstance(v, (ast.Name, ast.Attribute)):
+            return _resolve_key(fnode, v, depth + 1)
+    return expr
+
+
 @R.rule("C22-R2", floor=14, template="T-GUARD / T-EXHAUST",
-        desc="subscripts of OPERATORS / FUNCTIONS / extract_map / compound_keywords / BIND_TEMPLATES inside compiler "
-             "classes: guarded by try/except KeyError -> documented error, or constant key present in the table, or "
-             "operator fixed by the visitor's name and present, or enum / paramstyle domain fully covered")
+        desc="lookups in OPERATORS / FUNCTIONS / extract_map / compound_keywords / BIND_TEMPLATES inside compiler "
+             "classes: guarded by try/except KeyError -> documented error (in the method, or around every call of the "
+             "helper that does the lookup for its caller), `key in table` test, .get(), or constant key present in the "
+             "table, or operator fixed by the visitor's name and present, or enum / paramstyle domain fully covered; a "
+             "call of a lookup helper counts as a lookup of its caller")
 def r2(ctx):
+    # floor: 14 subscripts + 3 .get() lookups + 0 helper calls on today's tree.  A lookup that moves into a helper
+    # is still counted at every call of the helper (same key as the inline subscript had), and a subscript turned
+    # into .get() / a membership test is still counted, so only a vanished anchor lowers the count.
     ix = ctx.index
     m = ix.module(COMP)
     tables = {}
@@ -229,49 +286,64 @@ def r2(ctx):
 
     base = ix.cls(f"{COMP}::SQLCompiler")
     styles = set(load_oracle("paramstyles.json")["styles"])
-    for cls in _family(ctx):
+    fam = _family(ctx)
+    # helpers: methods whose lookup key is one of their own parameters -- {FuncInfo.key: (FuncInfo, tname, param index)}
+    helpers = {}
+    pending = []   # (f, key, loc, n, tname, param index): unguarded lookups by a parameter, judged at the call sites
+    seen_f = set()
+    for cls in fam:
         for name, f in sorted(cls.methods.items()):
+            if f.key in seen_f:
+                continue
+            seen_f.add(f.key)
             pm = None
             idx = {}
             for n in walk_local(f.node, into_nested=True):
-                if not (isinstance(n, ast.Subscript) and isinstance(n.ctx, ast.Load)):
+                is_get = False
+                if isinstance(n, ast.Subscript) and isinstance(n.ctx, ast.Load):
+                    tname, kexpr = _table_of(n.value), n.slice
+                elif isinstance(n, ast.Call) and isinstance(n.func, ast.Attribute) and n.func.attr == "get" and n.args:
+                    tname, kexpr, is_get = _table_of(n.func.value), n.args[0], True
+                else:
                     continue
-                d = dotted(n.value) or ""
-                tname = d if d in TABLES else SELF_TABLES.get(d[5:]) if d.startswith("self.") else None
                 if tname is None:
                     continue
                 ctx.functions_analysed.add(f.key)
                 pm = pm or f.module.parents()
-                ktxt = unparse(n.slice)
-                idx[(tname, ktxt)] = idx.get((tname, ktxt), 0) + 1
-                key = f"{f.key}:{tname}[{ktxt}]" + (f"#{idx[(tname, ktxt)]}" if idx[(tname, ktxt)] > 1 else "")
+                ktxt = unparse(kexpr)
+                shown = f"{tname}.get({ktxt})" if is_get else f"{tname}[{ktxt}]"
+                idx[shown] = idx.get(shown, 0) + 1
+                key = f"{f.key}:{shown}" + (f"#{idx[shown]}" if idx[shown] > 1 else "")
                 loc = f"{f.module.path}:{n.lineno}"
+                own_params = [p for p in f.params if p not in ("self", "cls")]
+                pidx = own_params.index(kexpr.id) if isinstance(kexpr, ast.Name) and kexpr.id in own_params \
+                    and _single_binding(f.node, kexpr.id) is None else None
+                if pidx is not None and not _op_visitor_parts(name):
+                    helpers.setdefault(f.key, (f, tname, pidx))
+                if is_get:
+                    ctx.ok(key, ".get(): a key outside the table yields the default, no KeyError")
+                    continue
                 # (a) guarded
-                guarded = False
-                for tr, part in enclosing_try(pm, n):
-                    if part == "body":
-                        for hnd in tr.handlers:
-                            ht = unparse(hnd.type) if hnd.type is not None else ""
-                            if ("KeyError" in ht or ht in ("Exception", "")) and any(
-                                    isinstance(x, ast.Raise) and (raised_name(x) or "").rsplit(".", 1)[-1] in DOCUMENTED
-                                    for x in ast.walk(hnd)):
-                                guarded = True
-                if guarded:
+                if _try_converts_keyerror(ctx, pm, n):
                     ctx.ok(key, "try/except KeyError -> documented error")
                     continue
-                kd = dotted(n.slice) or ""
+                if _membership_dominates(ctx, f, pm, n, ktxt, tname):
+                    ctx.ok(key, f"dominated by `{ktxt} in {tname}`")
+                    continue
+                rk = _resolve_key(f.node, kexpr)
+                kd = dotted(rk) or ""
                 # (b) constant key
                 if kd.startswith("operators.") and tname == "OPERATORS":
                     ctx.check(kd.split(".", 1)[1] in keyset(tname), key, f"constant key {kd} is not in {tname}", "constant key present", loc)
                     continue
                 # (c) operator fixed by the visitor's own name
                 parts = _op_visitor_parts(name)
-                if parts and tname == "OPERATORS" and isinstance(n.slice, ast.Name) and n.slice.id in f.params[1:3]:
+                if parts and tname == "OPERATORS" and isinstance(rk, ast.Name) and rk.id in f.params[1:3]:
                     ctx.check(parts[0] in keyset(tname), key,
                               f"{name} is dispatched for operator `{parts[0]}`, which has no entry in OPERATORS", "operator of the visitor present", loc)
                     continue
                 # (d) enum / paramstyle domains
-                if tname == "COMPOUND_KEYWORDS" and ktxt.endswith(".keyword"):
+                if tname == "COMPOUND_KEYWORDS" and kd.endswith(".keyword"):
                     enum = ix.cls("sql/selectable.py::_CompoundSelectKeyword")
                     # the table evaluator resolves enum members to their values; compare by member name and value
                     members = set()
@@ -300,12 +372,63 @@ def r2(ctx):
                     ctx.check(not missing, key, f"_CompoundSelectKeyword member(s) without keyword: {missing}",
                               f"all {len(members)} enum members covered in every dialect table", loc)
                     continue
-                if tname == "BIND_TEMPLATES" and ktxt.endswith("paramstyle"):
+                if tname == "BIND_TEMPLATES" and kd.endswith("paramstyle"):
                     ctx.check(styles <= keyset(tname), key, f"paramstyle(s) {sorted(styles - keyset(tname))} have no template",
                               "every DBAPI paramstyle has a template (dialect literals: C04-R1)", loc)
                     continue
+                if pidx is not None and f.key in helpers:
+                    pending.append((f, key, loc, n, tname, pidx))
+                    continue
                 ctx.violation(key, f"`{unparse(n)}` is indexed by a key taken from the construct without a KeyError guard: an "
                                    f"operator / field outside the table surfaces as a bare KeyError from compile()", loc)
+    # calls of the lookup helpers: each one is a lookup of the caller, with the argument as key
+    sites = {}   # helper key -> [(caller FuncInfo, call, guarded at the call site?)]
+    if helpers:
+        hnames = {h.name for h, _, _ in helpers.values()}
+        done = set()
+        for cls in fam:
+            for name, f in sorted(cls.methods.items()):
+                if f.key in done or not any(hn in f.module.source for hn in hnames):
+                    continue
+                done.add(f.key)
+                pm = None
+                for c in calls_in(f.node, into_nested=True):
+                    if not (isinstance(c.func, ast.Attribute) and c.func.attr in hnames and unparse(c.func.value) == "self"):
+                        continue
+                    tgt = ix.resolve_method(cls, c.func.attr)
+                    if tgt is None or tgt.key not in helpers or tgt.node is f.node:
+                        continue
+                    pm = pm or f.module.parents()
+                    sites.setdefault(tgt.key, []).append((f, c, _try_converts_keyerror(ctx, pm, c)))
+    unguarded_helpers = {}
+    for f, key, loc, n, tname, pidx in pending:
+        callers = sites.get(f.key, [])
+        bad = [f"{cf.qualname} (L{c.lineno})" for cf, c, guarded in callers if not guarded]
+        if callers and not bad:
+            ctx.ok(key, f"KeyError converted to a documented error around every call ({len(callers)}) of this helper")
+        else:
+            unguarded_helpers[f.key] = True
+            ctx.violation(key, f"`{unparse(n)}` is indexed by a key taken from the construct without a KeyError guard"
+                               + (f", and neither is the call in {', '.join(bad)}" if bad else "")
+                               + ": an operator / field outside the table surfaces as a bare KeyError from compile()", loc)
+    count = {}
+    for hk, lst in sorted(sites.items()):
+        h, tname, pidx = helpers[hk]
+        hparams = [p for p in h.params if p not in ("self", "cls")]
+        for cf, c, guarded in lst:
+            arg = c.args[pidx] if pidx < len(c.args) and not any(isinstance(a, ast.Starred) for a in c.args[:pidx + 1]) else None
+            if arg is None:
+                for k in c.keywords:
+                    if k.arg == hparams[pidx]:
+                        arg = k.value
+            ctx.require(arg is not None, f"{cf.key}: call of lookup helper {h.qualname} without the key argument (unknown idiom)")
+            ctx.functions_analysed.add(cf.key)
+            shown = f"{tname}[{unparse(arg)}]"
+            count[(cf.key, shown)] = count.get((cf.key, shown), 0) + 1
+            k2 = f"{cf.key}:{shown}" + (f"#{count[(cf.key, shown)]}" if count[(cf.key, shown)] > 1 else "")
+            # the verdict on the lookup itself is recorded once, at the helper
+            ctx.ok(k2, f"looked up through {h.qualname}" + (" (judged there)" if hk not in unguarded_helpers or guarded
+                                                            else " (unguarded: reported at the helper)"))
 
 
 # ------------------------------------------------------------------------------------------ R3
@@ -1156,3 +1279,49 @@ R.mutant("r7-from-select-entry-store-conditional", CRUD,
 R.mutant("benign-label-reference-handler-var-renamed", COMP,
          sub("            except KeyError as ke:\n                raise exc.CompileError(\n                    \"Can't resolve label reference for ORDER BY / \"\n                    \"GROUP BY / DISTINCT etc.\"\n                ) from ke\n\n            (\n",
              "            except KeyError as err:\n                raise exc.CompileError(\n                    \"Can't resolve label reference for ORDER BY / \"\n                    \"GROUP BY / DISTINCT etc.\"\n                ) from err\n\n            (\n"), None)
+
+# --- robustify round (rob-C1): R2 follows lookup helpers, membership guards, .get(), locals bound once
+_ECL = ("        try:\n            opstring = OPERATORS[operator_]\n        except KeyError as err:\n"
+        "            raise exc.UnsupportedCompilationError(self, operator_) from err\n        else:\n"
+        "            kw[\"_in_operator_expression\"] = True\n")
+_ECL_HEAD = "    def visit_expression_clauselist(self, clauselist, **kw):\n"
+_GUARDED_HELPER = ("    def _generic_opstring(self, op):\n        try:\n            return OPERATORS[op]\n        except KeyError as err:\n"
+                   "            raise exc.UnsupportedCompilationError(self, op) from err\n\n")
+_BARE_HELPER = "    def _generic_opstring(self, op):\n        return OPERATORS[op]\n\n"
+_CL = ("            try:\n                sep = OPERATORS[clauselist.operator]\n            except KeyError as err:\n"
+       "                raise exc.UnsupportedCompilationError(\n                    self, clauselist.operator\n                ) from err\n")
+# family "extracted helper": the helper performs lookup + conversion, the callers just call it (rfC_3)
+R.mutant("benign-r2-guarded-lookup-helper", COMP,
+         chain(sub(_ECL_HEAD, _GUARDED_HELPER + _ECL_HEAD),
+               sub(_ECL, "        opstring = self._generic_opstring(operator_)\n        if True:\n            kw[\"_in_operator_expression\"] = True\n"),
+               sub(_CL, "            sep = self._generic_opstring(clauselist.operator)\n")), None)
+# the helper only looks up; every caller converts the KeyError
+R.mutant("benign-r2-bare-lookup-helper-guarded-by-callers", COMP,
+         chain(sub(_ECL_HEAD, _BARE_HELPER + _ECL_HEAD),
+               sub(_ECL, "        try:\n            opstring = self._generic_opstring(operator_)\n        except KeyError as err:\n"
+                         "            raise exc.UnsupportedCompilationError(self, operator_) from err\n        else:\n"
+                         "            kw[\"_in_operator_expression\"] = True\n")), None)
+R.mutant("r2-bare-lookup-helper-one-caller-unguarded", COMP,
+         chain(sub(_ECL_HEAD, _BARE_HELPER + _ECL_HEAD),
+               sub(_ECL, "        try:\n            opstring = self._generic_opstring(operator_)\n        except KeyError as err:\n"
+                         "            raise exc.UnsupportedCompilationError(self, operator_) from err\n        else:\n"
+                         "            kw[\"_in_operator_expression\"] = True\n"),
+               sub(_CL, "            sep = self._generic_opstring(clauselist.operator)\n")), "C22-R2")
+R.mutant("r2-lookup-helper-loses-guard", COMP,
+         chain(sub(_ECL_HEAD, _BARE_HELPER + _ECL_HEAD),
+               sub(_ECL, "        opstring = self._generic_opstring(operator_)\n        if True:\n            kw[\"_in_operator_expression\"] = True\n")), "C22-R2")
+R.mutant("benign-r2-membership-test-early-raise", COMP,
+         sub(_ECL, "        if operator_ not in OPERATORS:\n            raise exc.UnsupportedCompilationError(self, operator_)\n"
+                   "        opstring = OPERATORS[operator_]\n        if True:\n            kw[\"_in_operator_expression\"] = True\n"), None)
+R.mutant("r2-membership-test-on-other-table", COMP,
+         sub(_ECL, "        if operator_ not in FUNCTIONS:\n            raise exc.UnsupportedCompilationError(self, operator_)\n"
+                   "        opstring = OPERATORS[operator_]\n        if True:\n            kw[\"_in_operator_expression\"] = True\n"), "C22-R2")
+R.mutant("benign-r2-get-then-documented-raise", COMP,
+         sub(_ECL, "        opstring = OPERATORS.get(operator_)\n        if opstring is None:\n"
+                   "            raise exc.UnsupportedCompilationError(self, operator_)\n        else:\n"
+                   "            kw[\"_in_operator_expression\"] = True\n"), None)
+R.mutant("benign-r2-handler-catches-lookuperror", COMP,
+         sub(_CL, "            try:\n                sep = OPERATORS[clauselist.operator]\n            except LookupError as err:\n"
+                  "                raise exc.UnsupportedCompilationError(\n                    self, clauselist.operator\n                ) from err\n"), None)
+R.mutant("benign-r2-constant-key-through-local", COMP,
+         sub("            separator = OPERATORS[operators.and_]\n", "            and_op = operators.and_\n            separator = OPERATORS[and_op]\n"), None)
